@@ -562,7 +562,7 @@ func (s *State) atLoopHead(l *Loop) bool {
 				}
 				r := c.fresh("lfr")
 				c.declare(r, "Int")
-				path := s.Path.push(fmt.Sprintf("(assert (and (<= 0 %s) (<= %s %s)))", r, r, lf.wm))
+				path := s.Path.push(fmt.Sprintf("(assert (and (< 0 %s) (<= %s %s)))", r, r, lf.wm))
 				for _, a := range lf.refs {
 					path = path.push(fmt.Sprintf("(assert (not (= %s %s)))", r, a))
 				}
@@ -636,6 +636,12 @@ func (s *State) atLoopHead(l *Loop) bool {
 
 // bindRangeIndex exposes the hidden index of a range loop as `rangeindex` (and `$k` = rangeindex+1).
 func (c *Ctx) bindRangeIndex(env *SpecEnv, s *State, fr *Frame, l *Loop) {
+	// sinceloop(x): allocated after this loop was entered
+	if wm, ok := fr.LoopWM[l.Head]; ok {
+		env.LoopWM = wm
+	} else {
+		env.LoopWM = s.WM
+	}
 	// range over a map: `visited` is the set of keys the iteration has produced so far
 	for _, ins := range l.Head.Instrs {
 		if nx, ok := ins.(*ssa.Next); ok && !nx.IsString {
@@ -693,6 +699,7 @@ func (s *State) havocLoop(l *Loop, declared map[string][]Term) {
 	}
 	sort.Slice(allocs, func(i, j int) bool { return allocs[i].Pos() < allocs[j].Pos() || allocs[i].Pos() == allocs[j].Pos() && allocs[i].Name() < allocs[j].Name() })
 	wmEntry := s.WM
+	fr.LoopWM[l.Head] = wmEntry
 	// pre-compute frame information before cells are havocked
 	type frameInfo struct {
 		refs    []Term
